@@ -295,3 +295,68 @@ package eval
 //@      (let ((layout (ite (= (len $params) 2) (p_string (idx $params 1)) (fld $c layout))) (v (p_string (idx $params 0))))
 //@        (and (= (= $ret1 ENil) (parseTimeOk layout v))
 //@             (=> (= $ret1 ENil) (= $ret0 (V_int64 (parseUnix layout v)))))))
+
+// ---------------------------------------------------------------------------
+// Well-formed flat programs (DESIGN 4.1) and the evaluator (C01 C03 C06 C07 C09).
+// Ghost functions (uninterpreted; a contract that mentions them is proved for
+// every interpretation that satisfies the precondition):
+//   pre(k)   static operand-stack height before node k
+//   vis(k)   k is a position the evaluator loop can stand on (not an inlined
+//            child of a fast operator)
+//   idxOf(p) index of node pointer p in e.nodes (nodes are pairwise distinct)
+// node kinds (flag & 7): constant=1 variable=2 operator=3 fastOperator=4 cond=5 event=7.
+
+//@ ghost (declare-fun pre (Int) Int)
+//@ ghost (declare-fun vis (Int) Bool)
+//@ ghost (declare-fun idxOf (Int) Int)
+
+//@ macro (KIND $p) (mod (fld $p flag) 8)
+//@ macro (HASSC $p) (not (= (mod (div (fld $p flag) 8) 4) 0))
+//@ macro (NODEAT $e $k) (select (arr (fld $e nodes)) (+ (off (fld $e nodes)) $k))
+//@ macro (SUCC $e $n $t $h) (=> (< $t $n) (and (vis $t) (= (pre $t) $h)))
+//@ macro (WF $e) (let ((n (len (fld $e nodes))) (m (fld $e maxStackSize)) (o (off (fld $e nodes))))
+//@   (and (not (= $e 0)) (< 0 n) (<= n 32767) (<= 1 m) (<= m n) (vis 0) (= (pre 0) 0)
+//@     (forall ((j Int)) (! (=> (and (<= o j) (< j (+ o n)))
+//@       (let ((k (- j o)) (p (select (arr (fld $e nodes)) j)))
+//@       (let ((kind (KIND p)) (ot (fld p osTop)) (sc (fld p scIdx)) (cc (fld p childCnt)))
+//@         (and (not (= p 0)) (= (idxOf p) k) (<= -1 ot) (< ot m)
+//@           (=> (= kind 2) (is.string (fld p value)))
+//@           (=> (vis k) (and (<= 0 (pre k)) (<= (pre k) m)
+//@             (=> (or (= kind 1) (= kind 2)) (and (= (pre k) ot) (<= 0 ot) (SUCC $e n (+ k 1) (+ ot 1))))
+//@             (=> (= kind 3) (and (<= 0 cc) (<= cc (pre k)) (= (- (pre k) cc) ot) (<= 0 ot) (not (= (fld p operator) 0)) (SUCC $e n (+ k 1) (+ ot 1))))
+//@             (=> (= kind 4) (and (< (+ k 2) n) (= (pre k) ot) (<= 0 ot) (not (= (fld p operator) 0)) (SUCC $e n (+ k 3) (+ ot 1))))
+//@             (=> (= kind 5) (and (>= (pre k) 1) (not (= (fld p operator) 0))
+//@                  (< (+ k 1) n) (vis (+ k 1)) (= (pre (+ k 1)) (- (pre k) 1))
+//@                  (< k sc) (< sc n) (SUCC $e n (+ sc 1) (+ ot 1))))
+//@             (=> (or (= kind 0) (= kind 6) (= kind 7)) (SUCC $e n (+ k 1) (pre k)))
+//@             (=> (and (<= 1 kind) (<= kind 4) (HASSC p))
+//@                 (or (= sc -1) (and (< (ite (= kind 4) (+ k 2) k) sc) (< sc n) (vis sc) (= (KIND (NODEAT $e sc)) 3))))))))))
+//@      :pattern ((select (arr (fld $e nodes)) j))))))
+
+//@ func reportEvent C12 C07 C06
+//@   requires [stack-range] (and (<= -1 $osTop) (< $osTop (len $os)) (< $osTop 32767) (not (= $e 0)))
+//@   ensures [frame] (forall ((r Int)) (! (=> (< r (old (next))) (= (select (heap E_Value) r) (select (old (heap E_Value)) r))) :pattern ((select (heap E_Value) r))))
+//@   assigns next E_Value sent.*
+//@   loop 1 (i)
+//@     invariant [range] (and (<= 0 $i) (<= $i (+ $osTop 1)) (fresh $stack) (= (len $stack) (+ $osTop 1)) (= (off $stack) 0))
+//@     invariant [frame] (forall ((r Int)) (! (=> (< r (old (next))) (= (select (heap E_Value) r) (select (old (heap E_Value)) r))) :pattern ((select (heap E_Value) r))))
+//@     decreases (- (+ $osTop 1) $i)
+
+//@ func Expr.Eval C01 C03 C06 C07 C09
+//@   requires [wf] (WF $e)
+//@   requires [ctx] (and (not (= $ctx 0)) (not (= (fld $ctx VariableFetcher) 0)))
+//@   ensures [error-identity] (=> (not (= $ret1 ENil)) (= $ret1 (heap last.err)))
+//@   ensures [frame] (forall ((r Int)) (! (=> (< r (old (next))) (= (select (heap E_Value) r) (select (old (heap E_Value)) r))) :pattern ((select (heap E_Value) r))))
+//@   assigns next E_Value sent.* dyn.* last.err
+//@   loop 1 (i)
+//@     invariant [position] (and (<= 0 $i) (<= $i (len (fld $e nodes))) (=> (< $i (len (fld $e nodes))) (and (vis $i) (= $osTop (- (pre $i) 1)))))
+//@     invariant [stack] (and (fresh $os) (= (off $os) 0) (>= (len $os) (fld $e maxStackSize)) (>= (len $os) 8))
+//@     invariant [no-pending-error] (= $err ENil)
+//@     invariant [frame] (forall ((r Int)) (! (=> (< r (old (next))) (= (select (heap E_Value) r) (select (old (heap E_Value)) r))) :pattern ((select (heap E_Value) r))))
+//@     decreases (- (len (fld $e nodes)) $i)
+//@   loop 2 (i)
+//@     invariant [at-node] (let ((c (idxOf $curt)) (n (len (fld $e nodes))))
+//@        (and (<= 0 c) (< c n) (= (NODEAT $e c) $curt) (vis c) (<= 1 (KIND $curt)) (<= (KIND $curt) 4)
+//@             (= $i (ite (= (KIND $curt) 4) (+ c 2) c)) (>= $i $i@1) (= $osTop (- (fld $curt osTop) 1))))
+//@     invariant [frame] (forall ((r Int)) (! (=> (< r (old (next))) (= (select (heap E_Value) r) (select (old (heap E_Value)) r))) :pattern ((select (heap E_Value) r))))
+//@     decreases (- (len (fld $e nodes)) $i)
